@@ -501,7 +501,7 @@ func (h *c17Hist) setup() error {
 	pr.AttestFormSize = PickOne(p, []int64{1, 2, 3, 3})
 	pr.AttestMinToPass = 1 + p.I64n(pr.AttestFormSize)
 	pr.CollateralPrice = 1000
-	e.App.StorageKeeper.SetParams(e.Ctx, pr)
+	GovSetStorageParams(e, pr)
 	h.params = pr
 	// owners with funds and a storage plan
 	for i := 1; i <= 2; i++ {
